@@ -103,6 +103,28 @@ def run(ctx):
                         hm.rel,
                         rn.lineno,
                     )
+            # the field must reach the pre-image unfiltered: no comprehension filter / helper that drops entries
+            for f in identity:
+                for node in ast.walk(hfn):
+                    if isinstance(node, ast.Attribute) and node.attr == f and isinstance(node.value, ast.Name) and node.value.id == "self" and isinstance(node.ctx, ast.Load):
+                        par = hm.parent.get(node)
+                        if isinstance(par, ast.Call) and node in par.args:
+                            callee = call_name(par) or ""
+                            helper = hm.funcs.get(callee)
+                            if helper is not None:
+                                filt = [n for n in ast.walk(helper) if isinstance(n, (ast.DictComp, ast.ListComp, ast.SetComp, ast.GeneratorExp)) and any(g.ifs for g in n.generators)] + [n for n in ast.walk(helper) if isinstance(n, ast.Call) and isinstance(n.func, ast.Attribute) and n.func.attr in ("pop", "discard", "remove")]
+                                r1.check(
+                                    not filt,
+                                    f"{hm.rel}:{c.name}._calc_hash[{howner.name}]:{f}:unfiltered",
+                                    f"`self.{f}` is passed through `{callee}`, which drops entries ({src(filt[0])[:60] if filt else ''}) before hashing: two {c.name}s whose `{f}` differ only in dropped entries get the same hash",
+                                    hm.rel,
+                                    node.lineno,
+                                )
+                        comp = par
+                        while comp is not None and comp is not hfn and not isinstance(comp, ast.stmt):
+                            if isinstance(comp, (ast.DictComp, ast.ListComp, ast.SetComp, ast.GeneratorExp)) and any(g.ifs for g in comp.generators):
+                                r1.violation(f"{hm.rel}:{c.name}._calc_hash[{howner.name}]:{f}:filtered", f"`self.{f}` is filtered by a comprehension condition before hashing", hm.rel, node.lineno)
+                            comp = hm.parent.get(comp)
             # tag
             tag = None
             if isinstance(v, ast.Call) and call_name(v) == "hash_struct" and v.args and isinstance(v.args[0], ast.List) and v.args[0].elts:
